@@ -1,6 +1,7 @@
 """C06, stage hoist.collect: the Lean model of the collecting traversal of HoistLiterals (PMV.HoistCollect.collect, T06.4)
 against the occurrences the real traversal hands to get_binding, as ordered sequences of values; and: the references held by
-the hoisted bindings (what rename() replaces) are exactly the collected nodes."""
+the hoisted bindings (what rename() replaces) are exactly the collected nodes; and the
+dictionary of hoisted bindings (one per value under the HoistedValue key, with its reference count) against PMV.HoistCollect.bindingsOf (T06.5)."""
 import hoist_corr
 import pyast
 
@@ -27,6 +28,8 @@ COLLECT_EXTRA = [
     '        return [comp_item async for comp_item in "e" if "f" if None], {key_item: "g" for key_item in "h"}, ("i" for gen_item in "j")\n',
     'decorated_value = "a"\n@"decorator"\n@other_decorator("b")\nclass DecoratedClass:\n    @"method decorator"\n    def method_one(self):\n'
     '        return "a" < "b" <= "c" is not None, "d" and "e" or not "f", -"g", "h" @ "i", (walrus_value := "j"), *"k"\n',
+    # values that compare equal across types, or differ only in spelling, side by side
+    'value_one = ("a", b"a", \'a\', "\\x61", b"\\x61", "", b"", None, True, False, 1, 0, 1.0, True, None, "", b"")\nvalue_two = [True, 1, "1", b"1", False, 0, "0", not None]\n',
 ]
 
 
@@ -43,7 +46,7 @@ def hoist_collect_correspondence(ctx, progs):
         except (SyntaxError, ValueError):
             continue
         try:
-            req, seen, refs = hoist_corr.observed(src)
+            req, seen, refs, groups = hoist_corr.observed(src)
         except RecursionError:
             continue
         except pyast.OutOfModel:
@@ -55,12 +58,20 @@ def hoist_collect_correspondence(ctx, progs):
                            'cannot observe the traversal: %s: %s' % (e.__class__.__name__, str(e)[:200]))
             continue
         reqs.append(req)
-        expect.append((ident, src, seen, refs))
+        reqs.append('hoist.groups' + req[len('hoist.collect'):])
+        expect.append((ident, src, seen, refs, groups))
     answers = ctx.driver.ask(reqs) if reqs else []
     diffs = 0
     total = 0
-    for (ident, src, seen, refs), ans in zip(expect, answers):
+    bindings = 0
+    for k, (ident, src, seen, refs, groups) in enumerate(expect):
+        ans, gans = answers[2 * k], answers[2 * k + 1]
         ctx.count()
+        bindings += len(groups.split())
+        gmodel = gans[3:] if gans.startswith('ok ') else ('' if gans == 'ok' else None)
+        if gmodel is None or gmodel.split() != groups.split():
+            diffs += 1
+            ctx.add_broken('correspondence', 'hoist.groups:' + ident, 'source=%r impl=%r model=%r' % (src[:300], groups[:300], gans[:300]))
         n = len(seen.split())
         total += n
         if n:
@@ -73,4 +84,4 @@ def hoist_collect_correspondence(ctx, progs):
             diffs += 1
             ctx.add_broken('correspondence', 'hoist.collect.refs:' + ident,
                            'source=%r: %d occurrences collected, %d references held by the hoisted bindings' % (src[:300], n, refs))
-    ctx.stage('hoist.collect', cases=len(expect), occurrences=total, out_of_model=skipped, diffs=diffs)
+    ctx.stage('hoist.collect', cases=len(expect), occurrences=total, bindings=bindings, out_of_model=skipped, diffs=diffs)
